@@ -42,6 +42,27 @@ def symShaped (w : List Nat) : Bool :=
   | [] => false
   | c :: _ => !isWs c && !isIdStart c && !isDigitC c
 
+/-- The printed text with line breaks: `print_ast` with a line width writes, where the unbroken layout has
+a separating blank, that blank followed by more whitespace (newline and indentation) — `sepB path slot`,
+arbitrary — and before `else` an arbitrary nonempty whitespace run `sepF path` (newline + indentation
+instead of the blank).  Nothing else changes: no whitespace inside `. `, after a prefix operator or
+inside brackets.  `path` identifies the position in the term, so every layout of this shape is covered. -/
+def printTextW (T : Table) (L : Ladder) (uni : Bool) (sepB : List Nat → Nat → List Nat) (sepF : List Nat → List Nat) :
+    List Nat → Skel → List Nat
+  | _, .atom s => s
+  | p, .app f a => wrapT (brF T f.cls) (printTextW T L uni sepB sepF (0 :: p) f) ++
+      32 :: (sepB p 0 ++ wrapT (brA T a.cls) (printTextW T L uni sepB sepF (1 :: p) a))
+  | p, .bin o l r => wrapT (brL T o l.cls) (printTextW T L uni sepB sepF (0 :: p) l) ++
+      32 :: (sepB p 0 ++ (T.spellTxt uni o ++ 32 :: (sepB p 1 ++ wrapT (brR T o r.cls) (printTextW T L uni sepB sepF (1 :: p) r))))
+  | p, .un o a => T.spellTxt uni o ++ wrapT (brU T o a.cls) (printTextW T L uni sepB sepF (0 :: p) a)
+  | p, .binder b x body => binderTxt T L uni b ++ (x ++ 46 :: 32 :: printTextW T L uni sepB sepF (0 :: p) body)
+  | p, .ite c a b => kwIf ++ 32 :: (sepB p 0 ++ (printTextW T L uni sepB sepF (0 :: p) c ++ 32 :: (sepB p 1 ++ (kwThen ++ 32 :: (sepB p 2 ++
+      (printTextW T L uni sepB sepF (1 :: p) a ++ (sepF p ++ (kwElse ++ 32 :: (sepB p 3 ++ printTextW T L uni sepB sepF (2 :: p) b)))))))))
+
+/-- the inserted characters are whitespace; the run before `else` is not empty -/
+def SepOK (sepB : List Nat → Nat → List Nat) (sepF : List Nat → List Nat) : Prop :=
+  (∀ p i c, c ∈ sepB p i → isWs c = true) ∧ (∀ p, sepF p ≠ [] ∧ ∀ c ∈ sepF p, isWs c = true)
+
 /-- lexer, then parser: what `parse_term` does with a text (without type inference) -/
 def parseText (T : Table) (L : Ladder) (S : List (List Nat)) (cs : List Nat) : Option Skel :=
   (lex S cs).bind (parseSkel T L)
@@ -100,7 +121,7 @@ abbrev TextOK (T : Table) (L : Ladder) (S : List (List Nat)) : Prop :=
   S.contains [40] = true ∧ S.contains [41] = true ∧ S.contains [46, 32] = true ∧
   S.contains kwIf = true ∧ S.contains kwThen = true ∧ S.contains kwElse = true ∧
   safeBeforeTerm T S [40] = true ∧
-  (∀ t ∈ S, [41].isPrefixOf t = true → t = [41] ∨ (t.drop 1).headD 0 ≠ 32 ∧ (t.drop 1).headD 0 ≠ 41) ∧
+  (∀ t ∈ S, [41].isPrefixOf t = true → t = [41] ∨ isWs ((t.drop 1).headD 0) = false ∧ (t.drop 1).headD 0 ≠ 41 ∧ (t.drop 1).headD 0 ≠ 44) ∧
   (∀ t ∈ S, [46, 32].isPrefixOf t = true → t = [46, 32]) ∧
   (∀ t ∈ S, [46].isPrefixOf t = true → t = [46, 32] ∨ (t.drop 1).headD 0 ≠ 32) ∧
   -- operator spellings
